@@ -384,6 +384,12 @@ def corpus_C03(tier):
         out.append(dict(id=300000 + j, seed=int(rng.integers(0, 2 ** 31 - 1)), n=2, m=3, prob="lin", reg="l1", lam=float(corpus._pick(rng, [0.1, 1.0])), restarts="soft",
                         maxunsucc=2, incnpt=2, rhoend=1e-2, maxfun=45, mag=float(corpus._pick(rng, [1.0, 5.0])), timeout=300.0,
                         bounds=corpus._pick(rng, ["none", "both"]), x0place=["in", "in"]))
+    for j in range(10 if tier == "quick" else 120):
+        # regulariser + internal scaling + averaging: the stored objective of a re-sampled point uses h at the USER's coordinates of that point
+        nn = int(rng.integers(1, 4))
+        out.append(dict(id=330000 + j, seed=int(rng.integers(0, 2 ** 31 - 1)), n=nn, m=nn + 1, prob="lin", reg="l1", lam=float(corpus._pick(rng, [0.1, 1.0])), bounds="both", scaling=True,
+                        bscale=float(corpus._pick(rng, [0.2, 3.0])), mag=float(corpus._pick(rng, [0.05, 1.0])), x0place=["in"] * nn, nsamples=corpus._pick(rng, ["2", "3"]), maxfun=30,
+                        rhoend=1e-3, timeout=300.0))
     for j in range(12 if tier == "quick" else 150):
         # a genuinely stochastic objective (samples at one point differ) with averaging and soft restarts that APPEND points: every appended point's
         # stored residual must be the mean of ITS samples
